@@ -102,6 +102,31 @@ func genValidIetfPatch(t *rapid.T, cur map[string]interface{}, st *propStats) (m
 			flags["ietf-number-test"] = true
 		}
 	}
+	if rapid.IntRange(0, 7).Draw(t, "prefixSibling") == 0 {
+		// a move / copy to a sibling whose pointer text merely begins with the text of 'from' (not a child of it)
+		name := rapid.SampledFrom([]string{"contact", "o", "tags"}).Draw(t, "siblingName")
+		list := []interface{}{}
+		for i := 0; i < 12; i++ {
+			list = append(list, fmt.Sprintf("t%d", i))
+		}
+		var seq []map[string]interface{}
+		if rapid.Bool().Draw(t, "siblingInArray") {
+			seq = []map[string]interface{}{{"op": "add", "path": "/" + name, "value": list},
+				{"op": rapid.SampledFrom([]string{"move", "copy"}).Draw(t, "siblingOp"), "from": "/" + name + "/1", "path": "/" + name + "/1" + rapid.SampledFrom([]string{"0", "1"}).Draw(t, "siblingIdx")}}
+		} else {
+			seq = []map[string]interface{}{{"op": "add", "path": "/" + name, "value": map[string]interface{}{"a": "b"}},
+				{"op": rapid.SampledFrom([]string{"move", "copy"}).Draw(t, "siblingOp"), "from": "/" + name, "path": "/" + name + rapid.SampledFrom([]string{"Previous", "2", "~0", "-"}).Draw(t, "siblingSuffix")}}
+		}
+		for _, op := range seq {
+			next, err := refPatch6902(work, op)
+			if err != nil {
+				break
+			}
+			ops = append(ops, op)
+			work = next
+			flags["ietf-prefix-sibling"] = true
+		}
+	}
 	if rapid.IntRange(0, 7).Draw(t, "shiftingMove") == 0 {
 		// a move out of an array into a location behind it in the same array: the location is meant in the array as it is
 		// after the removal (an element that was an array may have become an object and the other way round)
@@ -379,17 +404,30 @@ func TestC10_Inapplicable(t *testing.T) {
 			st.Exclude("inapplicable operation refused by the validator already")
 			return
 		}
-		journal("ApplyPatches", []byte(refJCS(map[string]interface{}{"doc": doc, "patches": []interface{}{p}})))
-		got, aerr := composer.ApplyPatches(libDoc(doc), lpList(lp))
+		// the failing patch anywhere in a list of otherwise valid patches (also in front of a 'replace', which discards the
+		// document but not the failure): the fold fails as a whole
+		list := []interface{}{p}
+		for i, n := 0, rapid.IntRange(0, 2).Draw(t, "patchesBefore"); i < n; i++ {
+			list = append([]interface{}{genDedicatedPatch(t, rapid.SampledFrom([]string{"add-also-known-as", "remove-also-known-as", "remove-services", "remove-public-keys"}).Draw(t, "before"), doc, false)}, list...)
+		}
+		for i, n := 0, rapid.IntRange(0, 2).Draw(t, "patchesAfter"); i < n; i++ {
+			list = append(list, genDedicatedPatch(t, rapid.SampledFrom([]string{"replace", "replace", "add-public-keys", "add-services", "add-also-known-as", "remove-services"}).Draw(t, "after"), doc, false))
+		}
+		lps, err := libPatches(list)
+		if err != nil {
+			t.Fatalf("C10 harness: %v", err)
+		}
+		journal("ApplyPatches", []byte(refJCS(map[string]interface{}{"doc": doc, "patches": list})))
+		got, aerr := composer.ApplyPatches(libDoc(doc), lps)
 		if aerr == nil && replaceOfMissingMember(work, bad) && knownOpen("F20") {
 			st.Known("F20", "replace of a missing object member is applied as add")
 			return
 		}
 		if aerr == nil {
-			t.Fatalf("C10 ietf-json-patch with an operation that RFC 6902 makes an error (%s) was applied\n doc=%s\n ops=%s\n result=%s", why, refJCS(doc), refJCS(ops), docCanon(got))
+			t.Fatalf("C10 ietf-json-patch with an operation that RFC 6902 makes an error (%s) was applied\n doc=%s\n ops=%s\n patch list=%s\n result=%s", why, refJCS(doc), refJCS(ops), refJCS(list), docCanon(got))
 		}
 		kind, _ := bad["op"].(string)
-		st.Case(len(ops) > 1, "inapplicable|"+refJCS(doc)+refJCS(ops), "inapplicable", "inapplicable-"+kind)
+		st.Case(len(ops) > 1 || len(list) > 1, "inapplicable|"+refJCS(doc)+refJCS(list), "inapplicable", "inapplicable-"+kind, fmt.Sprintf("inapplicable-in-list-of-%d", len(list)))
 		st.Sample("inapplicable", 2, func() interface{} { return map[string]interface{}{"ops": ops, "why": why} })
 	})
 }
